@@ -29,8 +29,12 @@ LEVEL_NOTE = ("Trusted: Coq kernel; translator for the neuron kernels (voltage_t
               "C17/Components.v validated by correspondence only (generator coverage); torch/einops/nn.ModuleDict modelled "
               "by their meaning. NOT modelled: wiring kwargs, Updater accumulators cleared by Connection.clear, broadcasting "
               "between different shapes (treated as an error), non-integer delays (C06), Cell objects beyond the constructor's "
-              "shape check, other neuron/synapse/connection classes (the layer theorems are generic in them; their "
-              "'clear = fresh' hypotheses are proved only for LinearDense/DeltaCurrent/LIF/ALIF). The documented recurrence "
+              "shape check. Other neuron classes (GLIF1 GLIF2 QIF Izhikevich EIF AdEx) have no Coq model in C17: the layer theorems "
+              "are generic in them, but their 'clear() with default arguments = freshly constructed component carrying the "
+              "adaptations' hypothesis is proved only for LinearDense/DeltaCurrent/LIF/ALIF and is otherwise CHECKED ON THE "
+              "IMPLEMENTATION ONLY (oracle-only case stream over all eight classes: adaptations before/after clear, state vs a "
+              "freshly built component, replay; with a coverage guard that every adaptive class is cleared with non-zero "
+              "adaptations). The documented recurrence "
               "is proved under refrac_t > 0; for refrac_t = 0 it is REFUTED (recurrent_spike_attr_refuted: RecurrentSerial "
               "reads Neuron.spike = (refrac == refrac_t), all-True then - consequence of the C03 spike-attribute finding), "
               "reported by the check as FINDING-CANDIDATE until known_findings.json lists it.")
@@ -289,6 +293,116 @@ def gen_replay(rng):
     case["ops"] = copy.deepcopy(S) + mid + [clear] + copy.deepcopy(S)
     case["replay"] = k
     return case
+
+
+# ---- oracle-only stream: layers over EVERY neuron class of inferno.neural (no Coq model of these classes in C17)
+ADAPTIVE = ["ALIF", "GLIF2", "Izhikevich", "AdEx"]
+PLAIN = ["LIF", "GLIF1", "QIF", "EIF"]
+
+
+def gen_neuron_any(rng, name, sh, dt, cls):
+    rest = rfl(rng, -66, -58)
+    k = rng.choice([1, 2])
+    refrac = rng.choice([dt, 2 * dt, rfl(rng, 0.5, 3.0)])
+    base = {"rest_v": rest, "refrac_t": refrac, "resistance": rfl(rng, 0.7, 1.3)}
+    if cls in ("LIF", "GLIF1"):
+        kw = dict(base, reset_v=rest - rfl(rng, 1, 5), thresh_v=rest + rfl(rng, 6, 12), time_constant=rfl(rng, 3, 20))
+    elif cls == "ALIF":
+        kw = dict(base, reset_v=rest - rfl(rng, 1, 5), thresh_eq_v=rest + rfl(rng, 6, 12), tc_membrane=rfl(rng, 3, 20),
+                  tc_adaptation=[rfl(rng, 10, 60) for _ in range(k)], spike_increment=[rfl(rng, 0.3, 2.5) for _ in range(k)])
+    elif cls == "GLIF2":
+        kw = dict(base, reset_v_add=-rfl(rng, 1, 4), reset_v_mul=rfl(rng, 0.2, 0.7), thresh_eq_v=rest + rfl(rng, 6, 12),
+                  tc_membrane=rfl(rng, 3, 20), rc_adaptation=[rfl(rng, 0.01, 0.08) for _ in range(k)],
+                  spike_increment=[rfl(rng, 0.3, 2.5) for _ in range(k)])
+    elif cls == "QIF":
+        kw = dict(base, crit_v=rest + rfl(rng, 8, 12), affinity=rfl(rng, 0.02, 0.05), reset_v=rest - rfl(rng, 1, 5),
+                  thresh_v=rest + rfl(rng, 25, 35), time_constant=rfl(rng, 4, 20))
+    elif cls == "Izhikevich":
+        kw = dict(base, crit_v=rest + rfl(rng, 8, 12), affinity=rfl(rng, 0.02, 0.05), reset_v=rest - rfl(rng, 1, 5),
+                  thresh_v=rest + rfl(rng, 25, 35), tc_membrane=rfl(rng, 1, 6), tc_adaptation=[rfl(rng, 20, 100) for _ in range(k)],
+                  voltage_coupling=[rfl(rng, 0.05, 0.3) for _ in range(k)], spike_increment=[rfl(rng, 0.5, 3) for _ in range(k)])
+    elif cls == "EIF":
+        kw = dict(base, rheobase_v=rest + rfl(rng, 8, 12), sharpness=rfl(rng, 1.5, 3), reset_v=rest - rfl(rng, 1, 5),
+                  thresh_v=rest + rfl(rng, 25, 35), time_constant=rfl(rng, 4, 20))
+    elif cls == "AdEx":
+        kw = dict(base, rheobase_v=rest + rfl(rng, 8, 12), sharpness=rfl(rng, 1.5, 3), reset_v=rest - rfl(rng, 1, 5),
+                  thresh_v=rest + rfl(rng, 25, 35), tc_membrane=rfl(rng, 4, 20), tc_adaptation=[rfl(rng, 20, 100) for _ in range(k)],
+                  voltage_coupling=[rfl(rng, 0.05, 0.3) for _ in range(k)], spike_increment=[rfl(rng, 0.5, 3) for _ in range(k)])
+    else:
+        raise AssertionError(cls)
+    return {"name": name, "shape": list(sh), "cls": cls, "kw": kw, "refrac_t": refrac, "acfg": None, "nadapt": k,
+            "adaptive": cls in ADAPTIVE}
+
+
+def gen_anyclass(rng, kind, classes):
+    """a layer of the given kind over the given neuron classes, run in TRAINING mode long enough for the adaptations to
+    move away from their initial zeros, then clear() with DEFAULT arguments in mid-run, then the same inputs again (the
+    reference rebuilds fresh components carrying the adaptations), then the other clear variants"""
+    B, dt = rng.choice([1, 2, 3]), rng.choice([1.0, 0.5])
+    ish = rng.choice(SHAPES)
+
+    def strong(c):
+        c["charge"] = rfl(rng, 25, 50)
+        c["W"] = [[rfl(rng, 0.5, 1.5) for _ in r] for r in c["W"]]
+        c["bias"] = None
+        return c
+    if kind == "serial":
+        nsh = rng.choice(SHAPES)
+        case = {"kind": "serial", "B": B, "dt": dt, "names_default": False, "tr": None,
+                "conns": [strong(gen_conn(rng, 1, ish, nsh, dt))], "neurs": [gen_neuron_any(rng, 2, nsh, dt, classes[0])]}
+
+        def fwd():
+            return ["fwd", [gen_tensor(rng, [B] + ish)], (None if rng.random() < 0.7 else {"lock": rng.random() < 0.7, "adapt": True}),
+                    rng.random() < 0.3]
+        clear = lambda sub, keep: ["clear", sub, keep]
+    elif kind == "biclique":
+        nsh = rng.choice(SHAPES)
+        conns = [dict(strong(gen_conn(rng, k, ish, nsh, dt)), tr=None) for k in (1, 2)]
+        neurs = [dict(gen_neuron_any(rng, 3 + j, nsh, dt, c), tr=None) for j, c in enumerate(classes)]
+        case = {"kind": "biclique", "B": B, "dt": dt, "conns": conns, "neurs": neurs, "combine": rng.choice(["sum", "mean", "max"])}
+
+        def fwd():
+            return ["fwd", [[c["name"], [gen_tensor(rng, [B] + ish)]] for c in conns], [], rng.random() < 0.3]
+        clear = lambda sub, keep: ["clear", sub, keep]
+    else:
+        fsh, bsh = rng.choice(SHAPES), rng.choice(SHAPES)
+        while nel(bsh) == nel(fsh):
+            bsh = rng.choice(SHAPES)
+        case = {"kind": "recurrent", "B": B, "dt": dt, "trainable": False, "tr": [None, None, None], "itr": [None, None],
+                "conns": [strong(gen_conn(rng, 1, ish, fsh, dt)), strong(gen_conn(rng, 2, fsh, bsh, dt)),
+                          strong(gen_conn(rng, 3, bsh, fsh, dt))],
+                "neurs": [gen_neuron_any(rng, 4, fsh, dt, classes[0]), gen_neuron_any(rng, 5, bsh, dt, classes[-1])]}
+
+        def fwd():
+            return ["fwd", [gen_tensor(rng, [B] + ish)], [], [], None, None, rng.random() < 0.3]
+        clear = lambda sub, keep: ["clear", True, sub, keep]
+    block = [fwd() for _ in range(rng.randint(10, 16))]
+    for o in block:       # dense input so that the groups really fire
+        xs = o[1] if kind != "biclique" else [t for _, ts in o[1] for t in ts]
+        for t in xs:
+            t["el"] = [float(rng.random() < 0.8) for _ in t["el"]]
+    ops = copy.deepcopy(block) + [clear(True, None)] + copy.deepcopy(block[:6])
+    ad = [n for n in case["neurs"] if n.get("adaptive")]
+    if ad and rng.random() < 0.5:
+        n = rng.choice(ad)
+        ops += [["adapt", n["name"], [[rfl(rng, 0.2, 3) for _ in range(n["nadapt"])] for _ in range(nel(n["shape"]))]],
+                clear(True, None), fwd()]
+    ops += [clear(True, True), fwd(), clear(False, None), fwd(), clear(True, False), fwd(), fwd(), clear(True, None), fwd()]
+    case["ops"] = ops
+    case["model"] = False
+    return case
+
+
+def gen_anyclass_cases(rng, reps):
+    out = []
+    for _ in range(reps):
+        for cls in ADAPTIVE + PLAIN:
+            out.append(gen_anyclass(rng, "serial", [cls]))
+        for cls in ADAPTIVE:
+            other = rng.choice(ADAPTIVE + PLAIN)
+            out.append(gen_anyclass(rng, "biclique", [cls, other]))
+            out.append(gen_anyclass(rng, "recurrent", rng.sample([cls, other], 2)))
+    return out
 
 
 def gen_cases(rng, n):
@@ -612,9 +726,27 @@ def run(ctx):
     exhaustive = ctx["tier"] == "thorough"
     if exhaustive:
         cases += exhaustive_cases(4)
+    anyc = gen_anyclass_cases(random.Random(ctx["seed"] + 17), 2 if ctx["tier"] == "quick" else 12)
     impl = F.run_impl(IMPL, {"cases": cases})
     model = F.eval_terms(ID, HEADER, [q_case(c) for c in cases], shard=20 if ctx["tier"] == "quick" else 60)
+    # oracle-only stream (all neuron classes; not evaluated in Coq)
+    impl_any = F.run_impl(IMPL, {"cases": anyc})
     mismatches, fails, cands = [], [], []
+    cover = Counter()
+    for c, r in zip(anyc, impl_any):
+        f, k = judge(c, r)
+        fails += f
+        cands += k
+        if r["trace"] and r["trace"][-1][0] == 1:
+            # these cases are well-formed by construction: an exception is a failure of the check's own generator or of the code
+            fails.append({"case": c, "detail": {"what": "oracle-only case raised", "trace_end": r["trace"][-1]},
+                          "signature": {"kind": "anyclass_raised", "layer": c["kind"]}})
+        for cls, keep, sub, nonzero in r.get("stats", {}).get("adaptive_clears", []):
+            cover[f"{cls}:clear({keep}{'' if sub else ',submodules=False'}):{'nonzero' if nonzero else 'zero'}-adaptations"] += 1
+    for cls in ADAPTIVE:
+        if not cover.get(f"{cls}:clear(default):nonzero-adaptations"):
+            mismatches.append({"case": None, "detail": f"generator coverage: no default clear() of a {cls} group with non-zero "
+                               "adaptations was exercised"})
     spikes = 0
     listed = candidate_listed()
     for c, r, tm in zip(cases, impl, model):
@@ -642,7 +774,9 @@ def run(ctx):
               f"cases; NOT yet listed in known_findings.json - see the C17 report for the entry)")
     errs = Counter(("err%d" % t[1]) for r in impl for t in r["trace"] if t[0] == 1)
     return {
-        "evaluations": len(cases),
+        "evaluations": len(cases) + len(anyc),
+        "oracle_only_cases": len(anyc),
+        "adaptive_clear_coverage": dict(cover),
         "distinct_nontrivial": len({json.dumps(c, sort_keys=True) for c, r in zip(cases, impl) if nontrivial(c, r["trace"])}),
         "rule": "seeded random layers (Serial / Biclique with 1-3 connections and 1-3 neuron groups, 6 combine modes, "
                 "per-connection and per-group transforms / RecurrentSerial with in/out transforms) over real LinearDense+"
@@ -651,7 +785,10 @@ def run(ctx):
                 "adaptation assignment); every 6th case from a malformed stream (wrong sizes, unknown / repeated names, empty "
                 "inputs); recurrent layers mostly with feed-forward and feedback groups of different sizes and with forwards right "
                 "after construction and after clear(); every 10th a replay case (S; ...; clear; S); non-trivial = >=2 forwards and no construction error; "
-                "distinct by full case text"
+                "distinct by full case text; plus an ORACLE-ONLY stream (not evaluated in Coq): Serial/Biclique/RecurrentSerial over "
+                "every neuron class (LIF GLIF1 ALIF GLIF2 QIF Izhikevich EIF AdEx) run 10-16 steps in training mode with dense input, "
+                "default clear() mid-run, same inputs again, then clear(keep_adaptations=True/False), clear(submodules=False); the "
+                "check fails if no default clear of a group with non-zero adaptations was exercised for some adaptive class"
                 + ("; plus, for one fixed small layer of each kind, every operation sequence of depth <= 4 over an alphabet of "
                    "2 forwards and 2-3 clears" if exhaustive else ""),
         "kind_distribution": dict(Counter(c["kind"] for c in cases)),
@@ -662,7 +799,7 @@ def run(ctx):
         "finding_candidates_total": len(cands),
         "samples": cases[:2],
         "mismatches": mismatches, "oracle_failures": fails,
-        "traces_validated_against_impl": len(cases) - len(mismatches),
+        "traces_validated_against_impl": len(cases) - len([m for m in mismatches if m.get("case") is not None]),
     }
 
 
